@@ -13,7 +13,7 @@ use super::Batcher;
 use crate::gen;
 use crate::obs::{RepSlot, Snap};
 use crate::ops::{self, push};
-use crate::run::{emit_run, run_traced, Cost, How, Outcome, RunCfg};
+use crate::run::{emit_run, run_traced, run_traced_on, Cost, How, Outcome, RunCfg};
 use crate::Args;
 use essential_asm::Op;
 use rand::rngs::SmallRng;
@@ -62,6 +62,7 @@ pub fn main(args: &Args) -> i32 {
         "compute" => compute(args, &mut b, &mut rng),
         "equiv" => equiv(args, &mut b, &mut rng),
         "sched" => sched(args, &mut b, &mut rng),
+        "resume" => resume(args, &mut b, &mut rng),
         _ => {
             eprintln!("unknown mode {mode}");
             return 2;
@@ -553,6 +554,63 @@ fn sched(args: &Args, b: &mut Batcher, rng: &mut SmallRng) {
         b.count(if same { "sched_same" } else { "sched_DIFFERENT" }, 1);
         if !same {
             b.samples.push(json!({"DIFFERENT": sigs, "prog": prog.iter().map(|o| crate::jv::to_raw(&ops::op_json(o))).collect::<Vec<_>>()}));
+        }
+    }
+}
+
+
+/// Growth beyond the listed properties: `Vm::exec` can be called again on a machine that ran out
+/// of gas (the refused op had no effect) and continues where it stopped.  Every program is cut at
+/// every k-th limit and resumed; both legs are validated by TraceVm (the second starts from the
+/// machine the first left behind, mid-loop repeat counters included) and cut + resume must end
+/// where the uninterrupted run ends, with the gas adding up.
+fn resume(args: &Args, b: &mut Batcher, rng: &mut SmallRng) {
+    let mut progs: Vec<Vec<Op>> = gas_programs().into_iter().filter(|p| p.0 != "infinite").map(|p| p.1).collect();
+    let count = if args.thorough { 400 } else { 60 } / args.shard.1.max(1);
+    for _ in 0..count {
+        let len = rng.gen_range(5..50);
+        progs.push(gen::random_program(rng, len, true, 3));
+    }
+    let mut n = 0u64;
+    for (pi, prog) in progs.into_iter().enumerate() {
+        let mut whole = std_cfg(prog.clone(), Snap::default());
+        whole.limit = 5_000;
+        whole.max_breadth = 8;
+        let full = run_traced(&whole);
+        let Outcome::Ok(total) = full.outcome else { continue };
+        let step = if args.thorough { 1 } else { 3 };
+        let mut limit = 0u64;
+        while limit < total {
+            n += 1;
+            if n % args.shard.1 == args.shard.0 {
+                let mut cfg1 = whole.clone();
+                cfg1.limit = limit;
+                let mut vm = crate::obs::build_vm(&cfg1.vm0);
+                let out1 = run_traced_on(&cfg1, &mut vm);
+                let em1 = emit_run(&cfg1, &out1, &format!("resume/{pi}/{limit}/a"));
+                b.push_run(&format!("resume/{pi}/{limit}/a"), em1.events, raw_cfg(&cfg1));
+                if matches!(out1.outcome, Outcome::Oog(pc) if prog.get(pc).map(|o| ops::name(o) == "COM").unwrap_or(false)) {
+                    // refused while adding the children's gas at the join: the Compute has already
+                    // had its effect (open finding F9, reported through TraceVm's KNOWN_F9) - not resumable
+                    b.count("cut_at_join_f9", 1);
+                } else if let Outcome::Oog(_) = out1.outcome {
+                    let spent1 = out1.oog_spent.unwrap_or(0);
+                    let mut cfg2 = whole.clone();
+                    cfg2.vm0 = out1.fin.clone();
+                    let out2 = run_traced_on(&cfg2, &mut vm);
+                    let em2 = emit_run(&cfg2, &out2, &format!("resume/{pi}/{limit}/b"));
+                    b.push_run(&format!("resume/{pi}/{limit}/b"), em2.events, raw_cfg(&cfg2));
+                    let same = matches!(out2.outcome, Outcome::Ok(g2) if g2 + spent1 == total) && out2.fin == full.fin;
+                    b.count(if same { "resume_same" } else { "resume_DIFFERENT" }, 1);
+                    if !same {
+                        b.samples.push(json!({"DIFFERENT": format!("cut at {limit}: {:?} then {:?} (spent {spent1}) vs uninterrupted {:?}", out1.outcome, out2.outcome, full.outcome),
+                                              "prog": prog.iter().map(|o| crate::jv::to_raw(&ops::op_json(o))).collect::<Vec<_>>()}));
+                    }
+                } else {
+                    b.count("cut_not_at_top_level", 1);
+                }
+            }
+            limit += step;
         }
     }
 }
